@@ -112,12 +112,18 @@ Answer(o) == CASE cfg.retryIf = "always" -> TRUE [] cfg.retryIf = "never" -> FAL
 
 Hist0 == [sentLate |-> FALSE, causeless |-> FALSE, dfltSkipped |-> FALSE, maxAtt |-> 0, maxSends |-> 0]
 
+TimerApiOf(c) == c.api \in {"gettimeout", "getdeadline"}
+Meth0(c) == IF c.api = "get" \/ TimerApiOf(c) THEN "GET" ELSE IF c.api = "post" THEN "POST" ELSE c.method
+Body0(c) == IF c.api = "get" \/ TimerApiOf(c) THEN "none" ELSE IF c.api = "post" THEN "form" ELSE c.body
 StartWith(c) ==
-  /\ cfg = c /\ pc = "start" /\ si = 0 /\ mwi = 0 /\ url = c.u
-  /\ meth = (IF c.api = "get" \/ TimerApi THEN "GET" ELSE IF c.api = "post" THEN "POST" ELSE c.method)
-  /\ bodyk = (IF c.api = "get" \/ TimerApi THEN "none" ELSE IF c.api = "post" THEN "form" ELSE c.body)
+  /\ cfg = c /\ pc = "start" /\ si = 0 /\ mwi = 0 /\ url = c.u /\ meth = Meth0(c) /\ bodyk = Body0(c)
   /\ hop = 0 /\ att = 0 /\ free = 0 /\ sends = 0 /\ live = {} /\ stale = {} /\ dpass = FALSE
   /\ cancelled = (c.ctx = "pre") /\ oc = Fail("none") /\ out = None /\ hist = Hist0
+\* the same as an action (trace validation starts every case with it)
+Begin(c) ==
+  /\ cfg' = c /\ pc' = "start" /\ si' = 0 /\ mwi' = 0 /\ url' = c.u /\ meth' = Meth0(c) /\ bodyk' = Body0(c)
+  /\ hop' = 0 /\ att' = 0 /\ free' = 0 /\ sends' = 0 /\ live' = {} /\ stale' = {} /\ dpass' = FALSE
+  /\ cancelled' = (c.ctx = "pre") /\ oc' = Fail("none") /\ out' = None /\ hist' = Hist0
 
 Entry == cfg.script[si + 1]
 HasEntry == si < Len(cfg.script)
@@ -302,7 +308,8 @@ Step(hint) == \/ WarmDial \/ WarmReq \/ WarmDone \/ NoWarm \/ CallExpired \/ MwI
               \/ Decide(hint) \/ AskRetry(hint) \/ Wait(hint) \/ MwOut \/ After \/ Abandon
 
 \* ---------------------------------------------------------------- the clauses as invariants
-AttemptBound == att <= MaxAtt /\ free <= 1 /\ sends <= MaxAtt + free
+\* every uncounted re-send uses up an idle connection: the one left before the hop or one left by a counted attempt
+AttemptBound == att <= MaxAtt /\ free <= att + 1 /\ sends <= Min(att + 1, MaxAtt) + free
 NonRepeatableOnce == (~Custom /\ ~DefaultRetryable) => sends <= 1
 RetryOnlyWhenAllowed == ~hist.causeless
 NothingSentLate == ~hist.sentLate
@@ -350,18 +357,20 @@ SeqsUpTo(S, n) == IF n = 0 THEN {<< >>}
                   ELSE LET P == SeqsUpTo(S, n - 1) IN P \cup {Append(p, s) : p \in {x \in P : Len(x) = n - 1}, s \in S}
 
 CONSTANTS MCEntries, MCApis, MCRetryIfs, MCWarms, MCMethods
-MCScripts == {[i \in 1 .. Len(s) |-> E(s[i])] : s \in SeqsUpTo(MCEntries, MCMaxScript) \ {<< >>}}
-HasStall(s) == \E i \in 1 .. Len(s) : s[i].b = "stall"
-MCCase(api, m, ma, rif, mr, w, s) ==
+\* the peer chooses its behaviour when an exchange begins (scripts of length <= MCMaxScript, all prefixes shared)
+MCCase(api, m, ma, rif, mr, w) ==
   [api |-> api, method |-> m, body |-> (IF m \in {"GET", "HEAD"} THEN "none" ELSE "bytes"), u |-> U0, rc |-> TRUE,
    maxAttempts |-> ma, policy |-> "rec", retryIf |-> rif, ctx |-> "live", maxRedirects |-> mr,
-   timeoutMs |-> (IF api = "reqtimeout" THEN 250 ELSE 0), readTimeoutMs |-> 0, delayMs |-> 0, warm |-> w, mw |-> 2, script |-> s]
-MCCases == UNION {{MCCase(api, m, ma, rif, mr, w, s) :
+   timeoutMs |-> (IF api = "reqtimeout" THEN 250 ELSE 0), readTimeoutMs |-> 0, delayMs |-> 0, warm |-> w, mw |-> 2, script |-> << >>]
+MCCases == UNION {{MCCase(api, m, ma, rif, mr, w) :
                      m \in MCMethods, ma \in 1 .. 3, rif \in MCRetryIfs, w \in MCWarms,
-                     mr \in (IF api = "redirects" THEN 0 .. 2 ELSE {0}),
-                     s \in {x \in MCScripts : HasStall(x) => api = "reqtimeout"}} : api \in MCApis}
+                     mr \in (IF api = "redirects" THEN 0 .. 2 ELSE {0})} : api \in MCApis}
+PeerChoose == /\ pc \in {"att", "dialed"} /\ ~cancelled /\ ~HasEntry /\ Len(cfg.script) < MCMaxScript
+              /\ \E n \in MCEntries : /\ (n = "stall" => TKind # "none")
+                                       /\ cfg' = [cfg EXCEPT !.script = Append(@, E(n))]
+              /\ UNCHANGED <<pc, si, mwi, url, meth, bodyk, hop, att, free, sends, live, stale, dpass, cancelled, oc, out, hist>>
 
 Init == \E c \in MCCases : StartWith(c)
-Next == \E hint \in {"Dial", "MwOut", "x"} : Step(hint)
+Next == PeerChoose \/ \E hint \in {"Dial", "MwOut", "x"} : Step(hint)
 Spec == Init /\ [][Next]_vars
 =============================================================================
